@@ -504,10 +504,11 @@ where
             } else if first_left == "eof" {
                 sent.to_string()
             } else {
-                // the first unread frame is the invalid one
-                match invalid_at.iter().filter(|k| **k < sent).collect::<Vec<_>>().as_slice() {
-                    [k] => k.to_string(),
-                    _ => "?".into(),
+                // the first unread frame is an invalid one: the first, since the validator would have
+                // failed on an earlier one
+                match invalid_at.iter().find(|k| **k < sent) {
+                    Some(k) => k.to_string(),
+                    None => "?".into(),
                 }
             };
             lines.push(format!("consumed {consumed}"));
@@ -515,7 +516,7 @@ where
             ents.sort();
             lines.push(format!("map {}", ents.join(" ")));
         }
-        Err(e) => lines.push(format!("res err {}", err_kind(&e))),
+        Err(e) => lines.push(format!("res err:{}", err_kind(&e))),
     }
 }
 
@@ -664,8 +665,86 @@ fn gen_response(rng: &mut Rng, ex: &str, entries: &[(usize, usize, usize)], fail
     }
 }
 
+fn random_op(rng: &mut Rng, ex: &str, entries: &[(usize, usize, usize)], fail_pct: u64, other_pct: u64) -> String {
+    let roll = rng.below(100);
+    if roll < other_pct {
+        format!("{} {}", rng.pick(&["o", "o", "ob"]), rng.below(6))
+    } else if roll < other_pct + 8 {
+        (*rng.pick(&["ping", "pong"])).to_string()
+    } else if roll < other_pct + 11 {
+        "close".into()
+    } else if roll < other_pct + 13 {
+        "wserr".into()
+    } else if roll < other_pct + 22 {
+        // never sums to exactly the 10 s timeout: multiples of 3 s, or more than 10 s at once
+        format!("wait {}", rng.pick(&[3000u64, 3000, 6000, 9000, 12000]))
+    } else if roll < other_pct + 25 && ex != "gateio" {
+        // (gateio: the documented failure payload does not deserialise; `docfail` is left to the corpus-free
+        // demonstration in the report, the spec would call it a failure response)
+        (*rng.pick(&["docok", "docfail"])).to_string()
+    } else if roll < other_pct + 26 && ex == "gateio" {
+        "docok".into()
+    } else {
+        let kind = *rng.pick(&["r", "r", "r", "rb"]);
+        format!("{kind} {}", gen_response(rng, ex, entries, fail_pct))
+    }
+}
+
+/// a script that validates successfully: the expected confirmations, market events in between
+fn valid_script(rng: &mut Rng, ex: &str, entries: &[(usize, usize, usize)]) -> Vec<String> {
+    let mut ops: Vec<String> = vec![];
+    if ex == "bitfinex" {
+        // distinct keys of the map, confirmed in a random order, each followed by its snapshot
+        let mut keys: Vec<(usize, usize)> = vec![];
+        for e in entries {
+            if !keys.contains(&(e.0, e.1)) {
+                keys.push((e.0, e.1));
+            }
+        }
+        for i in (1..keys.len()).rev() {
+            let j = rng.below(i as u64 + 1) as usize;
+            keys.swap(i, j);
+        }
+        if rng.chance(60) {
+            ops.push("r info 1".into());
+        }
+        let mut snaps_owed = 0;
+        for (n, (c, m)) in keys.iter().enumerate() {
+            ops.push(format!("r subscribed {c} {m} {}", 10 + n));
+            snaps_owed += 1;
+            while snaps_owed > 0 && rng.chance(70) {
+                ops.push(format!("o {}", rng.below(6)));
+                snaps_owed -= 1;
+            }
+        }
+        for _ in 0..snaps_owed {
+            ops.push(format!("o {}", rng.below(6)));
+        }
+    } else {
+        let k = match ex {
+            "binance" | "bybit" | "bitmex" => 1,
+            _ => {
+                let mut keys: Vec<(usize, usize)> = vec![];
+                for e in entries {
+                    if !keys.contains(&(e.0, e.1)) {
+                        keys.push((e.0, e.1));
+                    }
+                }
+                keys.len()
+            }
+        };
+        for _ in 0..k {
+            while rng.chance(35) {
+                ops.push(random_op(rng, ex, entries, 0, 70));
+            }
+            ops.push(format!("{} {}", rng.pick(&["r", "r", "rb"]), gen_response(rng, ex, entries, 0)));
+        }
+    }
+    ops
+}
+
 fn gen_case(rng: &mut Rng, out: &mut Out, ex: &str, thorough: bool) {
-    let n = *rng.pick(&[0usize, 1, 1, 2, 2, 3]);
+    let n = *rng.pick(&[0usize, 1, 1, 2, 2, 3, 3]);
     let mut entries: Vec<(usize, usize, usize)> = vec![];
     for i in 0..n {
         entries.push((rng.below(2) as usize, rng.below(3) as usize, 5 + i));
@@ -674,34 +753,37 @@ fn gen_case(rng: &mut Rng, out: &mut Out, ex: &str, thorough: bool) {
         "init {ex} {}",
         entries.iter().map(|(c, m, i)| format!("{c}:{m}:{i}")).collect::<Vec<_>>().join(" ")
     ));
-    let len = rng.range(0, if thorough { 14 } else { 10 });
     let fail_pct = *rng.pick(&[0u64, 0, 10, 30]);
     let other_pct = *rng.pick(&[10u64, 30, 50]);
-    let mut wserr_used = false;
-    let mut runs = 0;
-    for k in 0..len {
-        let roll = rng.below(100);
-        if roll < other_pct {
-            out.line(format!("{} {}", rng.pick(&["o", "o", "ob"]), rng.below(6)));
-        } else if roll < other_pct + 8 {
-            out.line(*rng.pick(&["ping", "pong"]));
-        } else if roll < other_pct + 11 {
-            out.line("close");
-        } else if roll < other_pct + 13 && !wserr_used {
-            wserr_used = true;
-            out.line("wserr");
-        } else if roll < other_pct + 22 {
-            // never sums to exactly the 10 s timeout: multiples of 3 s, or more than 10 s at once
-            out.line(format!("wait {}", rng.pick(&[3000u64, 3000, 6000, 9000, 12000])));
-        } else if roll < other_pct + 25 && ex != "gateio" {
-            out.line(*rng.pick(&["docok", "docfail"]));
-        } else if roll < other_pct + 26 && ex == "gateio" {
-            out.line("docok");
-        } else {
-            let kind = *rng.pick(&["r", "r", "r", "rb"]);
-            out.line(format!("{kind} {}", gen_response(rng, ex, &entries, fail_pct)));
+    let mut ops: Vec<String> = vec![];
+    if rng.chance(55) {
+        // mostly valid: a successful script, 0-2 mutations, something queued behind it
+        ops = valid_script(rng, ex, &entries);
+        for _ in 0..*rng.pick(&[0usize, 0, 1, 1, 2]) {
+            let pos = rng.below(ops.len() as u64 + 1) as usize;
+            match rng.below(3) {
+                0 => ops.insert(pos, random_op(rng, ex, &entries, fail_pct.max(10), other_pct)),
+                1 if pos < ops.len() => {
+                    ops.remove(pos);
+                }
+                _ if pos < ops.len() => ops[pos] = random_op(rng, ex, &entries, fail_pct.max(10), other_pct),
+                _ => {}
+            }
         }
-        if k + 1 < len as i64 && rng.chance(10) && runs < 2 {
+        for _ in 0..rng.below(3) {
+            ops.push(random_op(rng, ex, &entries, fail_pct, other_pct));
+        }
+    } else {
+        let len = rng.range(0, if thorough { 14 } else { 10 });
+        for _ in 0..len {
+            ops.push(random_op(rng, ex, &entries, fail_pct, other_pct));
+        }
+    }
+    let mut runs = 0;
+    let len = ops.len();
+    for (k, op) in ops.into_iter().enumerate() {
+        out.line(op);
+        if k + 1 < len && rng.chance(10) && runs < 2 {
             runs += 1;
             out.line("run");
         }
@@ -713,10 +795,64 @@ fn gen_case(rng: &mut Rng, out: &mut Out, ex: &str, thorough: bool) {
     out.line("run");
 }
 
+/// every sequence of at most `max_len` symbols, each followed by end of stream
+fn exhaustive(out: &mut Out, tag: &str, init: &str, syms: &[&str], max_len: usize) {
+    let mut id = 0usize;
+    for len in 0..=max_len {
+        let total = syms.len().pow(len as u32);
+        for mut code in 0..total {
+            id += 1;
+            out.case(format!("{tag}{id}"));
+            out.line(init);
+            for _ in 0..len {
+                out.line(syms[code % syms.len()]);
+                code /= syms.len();
+            }
+            out.line("run");
+        }
+    }
+}
+
 fn generate(seed: u64, n_cases: usize, tier: &str) {
     let mut out = Out::new();
     let mut rng = Rng::new(seed);
     let thorough = tier == "thorough";
+    if thorough {
+        // generic validator, two subscriptions (expected = 2): 7 symbols, length <= 4
+        exhaustive(
+            &mut out,
+            "xk",
+            "init kraken 0:0:5 0:1:6",
+            &["r subscribed 1", "r error", "o 1", "ping", "close", "wserr", "wait 6000"],
+            4,
+        );
+        // single-response venue (expected = 1 whatever the map): bybit incl. its pong, length <= 3
+        exhaustive(
+            &mut out,
+            "xb",
+            "init bybit 0:0:5 0:1:6",
+            &["r 1 subscribe", "r 0 none", "r 1 pong", "o 1", "pong", "close", "wait 6000"],
+            3,
+        );
+        // bitfinex, two subscriptions: 9 symbols, length <= 4 (+ a fifth position fixed to a payload)
+        exhaustive(
+            &mut out,
+            "xf",
+            "init bitfinex 0:0:5 0:1:6",
+            &[
+                "r subscribed 0 0 10",
+                "r subscribed 0 1 11",
+                "r subscribed 0 1 10",
+                "r subscribed 1 2 12",
+                "r info 1",
+                "r error 10300",
+                "o 1",
+                "wait 6000",
+                "close",
+            ],
+            4,
+        );
+    }
     for id in 0..n_cases {
         out.case(format!("r{id}"));
         let ex = EXCHANGES[id % EXCHANGES.len()];
